@@ -96,10 +96,12 @@ def make_tracer(sched, tid, trace_dirs, opcode_codes, granularity="line", only_p
     """sys.settrace tracer for one thread.  granularity "line": a switch point on every ``line``
     event (and every ``opcode`` event inside the listed code objects) of library / generated code;
     granularity "call": a switch point at the entry of every library / generated function only
-    (no line tracing at all, an order of magnitude fewer points).  Frames of foreign code get no
+    (no line tracing at all, an order of magnitude fewer points); granularity "shallow:K": as "call",
+    restricted to functions entered with fewer than K library frames beneath them.  Frames of foreign code get no
     local tracer, so they cost one global call each."""
     dirs = tuple(trace_dirs)
     opcodes = set(opcode_codes)
+    shallow = int(granularity.split(":")[1]) if granularity.startswith("shallow:") else 0
 
     def local(frame, event, arg):
         if event == "line":
@@ -118,6 +120,20 @@ def make_tracer(sched, tid, trace_dirs, opcode_codes, granularity="line", only_p
         if fn == "<string>" or fn.startswith(dirs):
             if granularity == "call":
                 sched.point(tid, (fn, f"{code.co_name}()"))
+                return None
+            if shallow:
+                # a switch point only at the entry of a library function with fewer than `shallow` library
+                # frames beneath it (the API call, what it calls, what that calls ...): few points, so that
+                # higher preemption bounds stay enumerable.  The walk stops as soon as the frame is known deep.
+                depth, f, steps = 1, frame.f_back, 0
+                while f is not None and depth <= shallow and steps < 64:
+                    ffn = f.f_code.co_filename
+                    if ffn == "<string>" or ffn.startswith(dirs):
+                        depth += 1
+                    f = f.f_back
+                    steps += 1
+                if depth <= shallow and f is None:
+                    sched.point(tid, (fn, f"{code.co_name}()"))
                 return None
             if code in opcodes:
                 frame.f_trace_opcodes = True
